@@ -188,3 +188,11 @@ pub fn fmt_dn(n: i64) -> String {
   let (y, m, d) = cal().date(n);
   fmt_date(y, m, d)
 }
+
+/// civil days on which the solar->lunar conversion is a listed finding of C02 (reform-era month
+/// labelling); workloads of properties that merely *use* the lunar date do not draw them
+pub fn reform_era_day(n: i64) -> bool {
+  let c = cal();
+  let r = |a: (i64, i64, i64), b: (i64, i64, i64)| n >= c.dn(a.0, a.1, a.2) && n <= c.dn(b.0, b.1, b.2);
+  r((9, 1, 1), (9, 1, 14)) || r((24, 1, 1), (24, 2, 28)) || r((25, 1, 1), (25, 2, 16)) || r((240, 1, 1), (240, 2, 9))
+}
